@@ -93,6 +93,12 @@ def field_attr(f, rng):
             extra += ['encode_with = "crate::cu::encode"', 'decode_with = "crate::cu::decode"', 'cbor_len = "crate::cu::cbor_len"']
             if f["opt"]:
                 extra += ['nil = "crate::cu::nil"', 'is_nil = "crate::cu::is_nil"']
+    # the order in which attributes are written, and whether they share one #[cbor(..)] or are split over two, must not matter either
+    if len(extra) > 1:
+        rng.shuffle(extra)
+        if rng.random() < 0.4:
+            k = rng.randint(1, len(extra) - 1)
+            return "#[cbor(" + ", ".join([f"{letter}({idx})"] + extra[:k]) + ")] #[cbor(" + ", ".join(extra[k:]) + ")]"
     if extra or rng.random() < 0.3:
         return "#[cbor(" + ", ".join([f"{letter}({idx})"] + extra) + ")]"
     return f"#[{letter}({idx})]"
